@@ -113,7 +113,11 @@ func c10Gen(c *vfCtx, emit func(c10Case)) {
 			}
 			var bodies []string
 			for i := range ids {
-				bodies = append(bodies, c10Bodies[(i*5+bv*4+si)%len(c10Bodies)])
+				b := c10Bodies[(i*5+bv*4+si)%len(c10Bodies)]
+				if b == c10Huge && !c.thorough() && si%3 != 0 {
+					b = c10Long // quick tier: the 70 KB line in every third subset only (each case runs every permutation)
+				}
+				bodies = append(bodies, b)
 			}
 			for li, lv := range live {
 				for _, srt := range []bool{false, true} {
